@@ -403,7 +403,7 @@ class IncrementalEncoder(codecs.IncrementalEncoder):
                 newinput = _fixencoding(input, str(encoding), final)
                 if newinput is None:  # @charset rule incomplete => Retry next time
                     self.buffer = input
-                    return ""
+                    return b""
                 input = newinput
             else:
                 # Use encoding from the @charset declaration
@@ -419,7 +419,7 @@ class IncrementalEncoder(codecs.IncrementalEncoder):
                 self.buffer = ""
             else:
                 self.buffer = input
-                return ""
+                return b""
         return self.encoder.encode(input, final)
 
     def reset(self):
@@ -477,7 +477,7 @@ class StreamWriter(codecs.StreamWriter):
                 newinput = _fixencoding(input, str(encoding), False)
                 if newinput is None:  # @charset rule incomplete => Retry next time
                     self.buffer = input
-                    return ("", 0)
+                    return (b"", 0)
                 input = newinput
             else:
                 # Use encoding from the @charset declaration
@@ -494,7 +494,7 @@ class StreamWriter(codecs.StreamWriter):
                 self.buffer = ""
             else:
                 self.buffer = input
-                return ("", 0)
+                return (b"", 0)
         return (self.streamwriter.encode(input, errors)[0], li)
 
     def _geterrors(self):
